@@ -35,8 +35,40 @@ impl Op {
     }
 }
 
+/// A call the serializer must refuse (chunk size 0 or above 2^31-1), made right before operation
+/// `i` in about one operation of eleven: a refused call must leave no trace in the compression
+/// state.  Deterministic in (i, op) so that consumers and witnesses need no extra bookkeeping.
+pub fn refused_call_before(i: usize, op: &Op) -> Option<(u32, u32)> {
+    let (ts, len) = match op {
+        Op::Msg { m, .. } => (m.ts, m.data.len() as u64),
+        Op::SetChunk { size, ts } => (*ts, *size as u64),
+    };
+    let h = crate::rng::mix(crate::rng::mix(i as u64, ts as u64), len);
+    if h % 11 != 0 {
+        return None;
+    }
+    let size = [0u32, 0x8000_0000, 0xFFFF_FFFF, 0][(h / 11 % 4) as usize];
+    let t = match h / 44 % 3 {
+        0 => ts,
+        1 => 0,
+        _ => (h >> 20) as u32,
+    };
+    Some((size, t))
+}
+
 pub fn ops_json(ops: &[Op]) -> Value {
-    Value::Array(ops.iter().map(|o| o.to_json()).collect())
+    Value::Array(
+        ops.iter()
+            .enumerate()
+            .map(|(i, o)| {
+                let mut j = o.to_json();
+                if let (Some((size, ts)), Some(obj)) = (refused_call_before(i, o), j.as_object_mut()) {
+                    obj.insert("preceded_by_refused_set_max_chunk_size".into(), json!({"size": size, "ts": ts}));
+                }
+                j
+            })
+            .collect(),
+    )
 }
 
 pub struct GenCfg {
@@ -171,6 +203,20 @@ pub fn serialize_history(ops: &[Op], out: &mut Out, witness: &dyn Fn() -> Value)
     let mut packets = Vec::with_capacity(ops.len());
     let mut all_ok = true;
     for (i, op) in ops.iter().enumerate() {
+        if let Some((size, ts)) = refused_call_before(i, op) {
+            let r = lib_call(out, "ChunkSerializer::set_max_chunk_size", || json!({"before_op_index": i, "refused_size": size, "history": witness()}), || {
+                ser.set_max_chunk_size(size, RtmpTimestamp::new(ts)).is_ok()
+            });
+            match r {
+                Some(false) => out.count("refused_calls_interleaved", 1),
+                Some(true) => {
+                    // whether out-of-range sizes are refused is C19's clause; this history ends here
+                    out.count("out_of_range_chunk_size_accepted_history_not_judged", 1);
+                    return Serialized { packets, all_ok: false };
+                }
+                None => return Serialized { packets, all_ok: false },
+            }
+        }
         let r = match op {
             Op::Msg { m, force, drop } => {
                 let p = crate::adapt::to_payload(m);
